@@ -108,3 +108,118 @@ def nontrivial_answers(ans):
     """a window is non-trivial if it has both members and non-members (ignoring EDGE)."""
     a = np.asarray(ans)
     return bool((a == 1).any() and (a == 0).any())
+
+
+KIND = {'CirclePixelRegion': 'circle', 'EllipsePixelRegion': 'ellipse', 'RectanglePixelRegion': 'rectangle',
+        'PolygonPixelRegion': 'polygon', 'RegularPolygonPixelRegion': 'regpolygon',
+        'CircleAnnulusPixelRegion': 'cannulus', 'EllipseAnnulusPixelRegion': 'eannulus',
+        'RectangleAnnulusPixelRegion': 'rannulus', 'PointPixelRegion': 'point', 'TextPixelRegion': 'text',
+        'LinePixelRegion': 'line', 'CompoundPixelRegion': 'compound'}
+
+
+def project(region):
+    """Real pixel region -> dict of floats in pixel units, keyed like the abstract shapes (angle as 'ang' rad)."""
+    k = KIND[type(region).__name__]
+    o = {'k': k}
+    if k == 'compound':
+        o['op'] = {operator.and_: 'and', operator.or_: 'or', operator.xor: 'xor'}.get(region.operator, '?')
+        o['a'] = project(region.region1)
+        o['b'] = project(region.region2)
+        return o
+    if k in ('polygon', 'regpolygon'):
+        o['vs'] = [[float(x), float(y)] for x, y in zip(np.atleast_1d(region.vertices.x), np.atleast_1d(region.vertices.y))]
+        if k == 'polygon':
+            return o
+    if k == 'line':
+        o.update(x1=float(region.start.x), y1=float(region.start.y), x2=float(region.end.x), y2=float(region.end.y))
+        return o
+    o['cx'], o['cy'] = float(region.center.x), float(region.center.y)
+    names = {'circle': {'r': 'radius'}, 'ellipse': {'w': 'width', 'h': 'height'}, 'rectangle': {'w': 'width', 'h': 'height'},
+             'cannulus': {'r1': 'inner_radius', 'r2': 'outer_radius'}, 'regpolygon': {'r': 'radius'},
+             'eannulus': {'w1': 'inner_width', 'h1': 'inner_height', 'w2': 'outer_width', 'h2': 'outer_height'},
+             'rannulus': {'w1': 'inner_width', 'h1': 'inner_height', 'w2': 'outer_width', 'h2': 'outer_height'}}.get(k, {})
+    for f, attr in names.items():
+        o[f] = float(getattr(region, attr))
+    if hasattr(region, 'angle'):
+        o['ang'] = float(region.angle.to_value('rad'))
+    return o
+
+
+def expected(s, fr):
+    """Abstract shape in frame fr -> dict of floats comparable with project()."""
+    k = s['k']
+    o = {'k': k}
+    if k == 'compound':
+        o['op'] = s['op']
+        o['a'] = expected(s['a'], fr)
+        o['b'] = expected(s['b'], fr)
+        return o
+    if k == 'polygon':
+        o['vs'] = [[fr.x(v[0]), fr.y(v[1])] for v in s['vs']]
+        return o
+    if k == 'line':
+        o.update(x1=fr.x(s['x1']), y1=fr.y(s['y1']), x2=fr.x(s['x2']), y2=fr.y(s['y2']))
+        return o
+    o['cx'], o['cy'] = fr.x(s['cx']), fr.y(s['cy'])
+    for f in ('r', 'w', 'h', 'r1', 'r2', 'w1', 'h1', 'w2', 'h2'):
+        if f in s:
+            o[f] = fr.len(s[f])
+    if 'd' in s:
+        o['dir'] = [s['d'][0] / s['d'][2], s['d'][1] / s['d'][2]]
+    return o
+
+
+def params_close(real, want, tol, scale=1.0):
+    """Compare project() output with expected(); returns None or a description of the first difference."""
+    if real['k'] != want['k']:
+        return f"class {real['k']} != {want['k']}"
+    if real['k'] == 'compound':
+        if real['op'] != want['op']:
+            return f"operator {real['op']} != {want['op']}"
+        return params_close(real['a'], want['a'], tol, scale) or params_close(real['b'], want['b'], tol, scale)
+    for f, v in want.items():
+        if f == 'k':
+            continue
+        if f == 'dir':
+            c, sn = math.cos(real['ang']), math.sin(real['ang'])
+            if abs(c - v[0]) > 1e-9 or abs(sn - v[1]) > 1e-9:
+                return f"angle {real['ang']} rad is not the direction {v}"
+            continue
+        if f == 'vs':
+            if len(real['vs']) != len(v):
+                return f"{len(real['vs'])} vertices, expected {len(v)}"
+            for a, b in zip(real['vs'], v):
+                if abs(a[0] - b[0]) > tol * scale or abs(a[1] - b[1]) > tol * scale:
+                    return f'vertex {a} != {b}'
+            continue
+        if abs(real[f] - v) > tol * max(scale, abs(v)):
+            return f'{f}={real[f]!r} expected {v!r}'
+    return None
+
+
+def fingerprint(region):
+    """Deep structural fingerprint of a region (parameters bit-for-bit, meta, visual)."""
+    k = type(region).__name__
+    out = [k]
+    for p in region._params or ():
+        v = getattr(region, p)
+        out.append((p, _fp(v)))
+    out.append(('meta', sorted((str(a), repr(b)) for a, b in dict(region.meta).items())))
+    out.append(('visual', sorted((str(a), repr(b)) for a, b in dict(region.visual).items())))
+    return repr(out)
+
+
+def _fp(v):
+    from regions import PixCoord
+    from regions.core.core import Region
+    if isinstance(v, PixCoord):
+        return ('PixCoord', np.asarray(v.x).tobytes(), np.asarray(v.y).tobytes(), np.shape(v.x))
+    if isinstance(v, Region):
+        return fingerprint(v)
+    if hasattr(v, 'unit') and hasattr(v, 'value'):
+        return ('Q', str(v.unit), np.asarray(v.value).tobytes())
+    if hasattr(v, 'frame') and hasattr(v, 'to_string'):
+        return ('Sky', v.frame.name, np.asarray(v.spherical.lon.deg).tobytes(), np.asarray(v.spherical.lat.deg).tobytes())
+    if isinstance(v, (int, float, np.generic)):
+        return ('n', repr(v))
+    return ('o', repr(v))
